@@ -1,0 +1,28 @@
+//go:build verif
+
+// Contracts for package x (comment-only; build tag verif).
+
+package x
+
+// Page sizes enter the system only through WithSize. The documented domain is
+// "every page size >= 1, 0 meaning the default" (C07), so a negative size is a
+// caller error that must be rejected before it gets here (C13).
+//@ ghost optsize(slice) int
+//@ ghost opttoken(slice) string
+
+//@ func WithSize
+//@   props C07 C13
+//@   modifies nothing
+//@   requires[C07,C13] nonneg-size: size >= 0
+//@   ensures result != nil
+
+//@ func WithToken
+//@   trusted
+//@   pure
+//@   ensures result != nil
+
+// ASSUMED: the options are applied in order; Size is what WithSize was given (>= 0 by its precondition)
+//@ func GetPaginationOptions
+//@   trusted
+//@   pure
+//@   ensures result != nil && fresh(result) && result.Size == optsize(modifiers) && result.Token == opttoken(modifiers) && result.Size >= 0
